@@ -571,3 +571,81 @@ func TestC08SlowPersist(t *testing.T) {
 		wg.Wait()
 	})
 }
+
+// TestC08AfterRefusals: "rejected requests leave no trace". On one provider a service provider that must sign sends the same
+// kind of refused request a dozen times (every defect of the catalogue, and signatures that do not verify, in both bindings);
+// then it sends a valid, correctly signed request. That request has its one outcome - persisted and sent on to the login - as
+// if nothing had come before; a request that is never answered (every goroutine inside the provider parked, nothing left that
+// could release them) has no outcome at all.
+func TestC08AfterRefusals(t *testing.T) {
+	col := ev.For("C08", "exploration", c08Rule)
+	runPlain(t, col, "TestC08", func(fail func(*ev.Violation, any)) {
+		kinds := append([]Defect{{Name: "bad-signature"}, {Name: "unsigned"}}, c08DefectCatalogue...)
+		n := 0
+		for _, d := range kinds {
+			for _, binding := range []string{"post", "redirect"} {
+				if d.Name == "bad-deflate" && binding != "redirect" {
+					continue
+				}
+				spec := stdSpec()
+				spec.SPs[1].AuthnRequestsSigned = "true"
+				w := mustBuild(spec)
+				mk := func(id string, defect *Defect, key string) obs.HTTPReq {
+					c := SSOCase{Spec: spec, Host: defHost, SP: 1, Style: plainStyle, Tr: spsim.Transport{Binding: binding, Plus: true, Encoding: A, RelayState: "rs"}}
+					c.Req = spsim.NewAuthnReq(id, spec.SPs[1].EntityID)
+					c.Req.IssueInstant = spsim.Rel(-5, 0, "")
+					c.Req.Destination = spec.IdP.Advertised("sso", defHost)
+					c.Req.Conditions = &spsim.Conditions{NotBefore: spsim.Rel(-60, 0, ""), NotOnOrAfter: spsim.Rel(300, 0, "")}
+					if key != "" {
+						if binding == "redirect" {
+							c.RSign = &spsim.Signing{Alg: world.AlgRSASHA256, KeyName: key}
+						} else {
+							c.Sign = spsim.Signing{Alg: world.AlgRSASHA256, KeyName: key, KeyInfo: true, CertLayout: "plain", DSPrefix: "ds"}
+						}
+					}
+					if defect != nil {
+						c.Defects = []Defect{*defect}
+						applyModelDefect(&c, *defect, defHost)
+					}
+					hr, _, err := ssoRender(c, time.Now())
+					if err != nil {
+						panic("harness: " + err.Error())
+					}
+					hr.Host = defHost
+					return hr
+				}
+				own := spec.SPs[1].KeyNames[0]
+				for i := 0; i < 12; i++ {
+					var hr obs.HTTPReq
+					switch d.Name {
+					case "bad-signature":
+						hr = mk(fmt.Sprintf("_refused-%d", i), nil, "rogue")
+					case "unsigned":
+						hr = mk(fmt.Sprintf("_refused-%d", i), nil, "")
+					default:
+						dd := d
+						hr = mk(fmt.Sprintf("_refused-%d", i), &dd, own)
+					}
+					obs.Do(w.Handler, hr)
+				}
+				refused, _ := createCalls(w)
+				w.Store.ResetLog()
+				rep, hang := doTerminating(w, mk("_valid-after-refusals", nil, own))
+				n++
+				c := map[string]any{"refused_kind": d, "binding": binding, "refusals": 12}
+				okCalls, _ := createCalls(w)
+				switch {
+				case hang != "":
+					key, what, _ := strings.Cut(hang, "\x00")
+					fail(ev.V("C08/"+key, "after 12 %s requests (%s) were refused: %s", d.Name, binding, what), c)
+				case rep.Panic != "":
+					fail(ev.V("C08/panic", "after 12 refused %s requests: handler panicked: %s", d.Name, short(rep.Panic, 100)), c)
+				case len(okCalls) != 1 || rep.Status != 303:
+					fail(ev.V("C08/refusals-left-a-trace", "after 12 %s requests (%s binding; %d of them persisted) the provider's valid, signed request was not accepted: status %d, %d persisted: %s", d.Name, binding, len(refused), rep.Status, len(okCalls), short(string(rep.Body), 160)), c)
+				}
+				col.Case(true, ev.Fingerprint("after-refusals", d.Name, d.Param, binding), []string{"after-refusals", "after-refusals/" + binding}, func() any { return c })
+			}
+		}
+		col.SetExtra("after_refusals_sequences", n)
+	})
+}
